@@ -79,7 +79,7 @@ pub fn workspace(thorough: bool) -> Report {
     use std::fs;
     let n = if thorough { 4usize } else { 3 };
     let mut r = Report::new(
-        "every labelled DAG on N composite buildpacks written as a real workspace (buildpack.toml + package.toml) x 5 placements of foreign dependencies (none, docker:// first, relative path first, one between every two libcnb: entries, last): build_libcnb_buildpacks_dependency_graph yields one node per buildpack and exactly the declared libcnb: edges, get_dependencies on it returns exactly roots + transitive dependencies, dependencies first, for every ordered selection of up to 2 roots; a libcnb: reference to an unknown id is an error; non-trivial = graphs with at least one edge",
+        "every labelled DAG on N composite buildpacks written as a real workspace (buildpack.toml + package.toml) x 5 placements of foreign dependencies (none, docker:// first, relative path first, one between every two libcnb: entries, last): build_libcnb_buildpacks_dependency_graph yields one node per buildpack and exactly the declared libcnb: edges, get_dependencies on it returns exactly roots + transitive dependencies, dependencies first, for every ordered selection of up to 2 roots; a libcnb: reference to an unknown id is an error; non-trivial = graphs with at least one edge; plus: a libcnb: dependency with an invalid id (libcnb:demo_b, libcnb:, libcnb:app) is an error; a buildpack directory that is a symbolic link to a directory outside the workspace is found",
         &format!("N = {n} buildpacks"),
     );
     let pairs: Vec<(usize, usize)> = (0..n).flat_map(|i| (0..n).filter(move |j| *j != i).map(move |j| (i, j))).collect();
@@ -132,6 +132,32 @@ pub fn workspace(thorough: bool) -> Report {
         fs::write(d.join("buildpack.toml"), "api = \"0.10\"\n[buildpack]\nid = \"demo/bp0\"\nversion = \"0.0.1\"\n[[order]]\n[[order.group]]\nid = \"x/y\"\nversion = \"1.0.0\"\n").unwrap();
         fs::write(d.join("package.toml"), "[buildpack]\nuri = \".\"\n[[dependencies]]\nuri = \"docker://img/x\"\n[[dependencies]]\nuri = \"libcnb:demo/ghost\"\n").unwrap();
         if build_libcnb_buildpacks_dependency_graph(t.path()).is_ok() { r.violation("workspace_missing_dependency", "a libcnb: dependency on a buildpack that does not exist is an error", "bp0 -> [docker://img/x, libcnb:demo/ghost]".into(), "Err".into(), "Ok".into()); }
+    }
+    // a libcnb: reference whose id is not a valid buildpack id is an error, never silently dropped
+    for bad in ["libcnb:demo_b", "libcnb:", "libcnb:app"] {
+        r.evaluations += 1; r.nontrivial += 1;
+        let t = tempfile::tempdir().unwrap();
+        for (name, uris) in [("bp0", vec!["libcnb:demo/bp1", bad]), ("bp1", vec![])] {
+            let d = t.path().join(name); fs::create_dir_all(&d).unwrap();
+            fs::write(d.join("buildpack.toml"), format!("api = \"0.10\"\n[buildpack]\nid = \"demo/{name}\"\nversion = \"0.0.1\"\n[[order]]\n[[order.group]]\nid = \"x/y\"\nversion = \"1.0.0\"\n")).unwrap();
+            fs::write(d.join("package.toml"), format!("[buildpack]\nuri = \".\"\n{}", uris.iter().map(|u| format!("[[dependencies]]\nuri = \"{u}\"\n")).collect::<String>())).unwrap();
+        }
+        if let Ok(g) = build_libcnb_buildpacks_dependency_graph(t.path()) { r.violation("workspace_invalid_dependency_id", "a libcnb: dependency whose id is not a valid buildpack id is an error (not dropped)", format!("bp0 -> [libcnb:demo/bp1, {bad}]"), "Err".into(), format!("Ok: {} nodes, {} edges", g.node_count(), g.edge_count())); }
+    }
+    // a buildpack directory that is a symbolic link (to a directory outside the scanned root) is part of the workspace
+    {
+        r.evaluations += 1; r.nontrivial += 1;
+        let t = tempfile::tempdir().unwrap(); let root = t.path().join("ws"); let ext = t.path().join("elsewhere/bp1");
+        fs::create_dir_all(root.join("buildpacks/bp0")).unwrap(); fs::create_dir_all(&ext).unwrap();
+        let toml = |name: &str| format!("api = \"0.10\"\n[buildpack]\nid = \"demo/{name}\"\nversion = \"0.0.1\"\n[[order]]\n[[order.group]]\nid = \"x/y\"\nversion = \"1.0.0\"\n");
+        fs::write(root.join("buildpacks/bp0/buildpack.toml"), toml("bp0")).unwrap(); fs::write(root.join("buildpacks/bp0/package.toml"), "[buildpack]\nuri = \".\"\n[[dependencies]]\nuri = \"libcnb:demo/bp1\"\n").unwrap();
+        fs::write(ext.join("buildpack.toml"), toml("bp1")).unwrap(); fs::write(ext.join("package.toml"), "[buildpack]\nuri = \".\"\n").unwrap();
+        std::os::unix::fs::symlink(&ext, root.join("buildpacks/bp1")).unwrap();
+        match build_libcnb_buildpacks_dependency_graph(&root) {
+            Ok(g) if g.node_count() == 2 && g.edge_count() == 1 => {}
+            Ok(g) => r.violation("workspace_symlinked_buildpack_dir", "a buildpack directory that is a symbolic link is found like any other", "buildpacks/bp0 -> libcnb:demo/bp1, buildpacks/bp1 -> symlink to ../../elsewhere/bp1".into(), "2 nodes, 1 edge".into(), format!("{} nodes, {} edges", g.node_count(), g.edge_count())),
+            Err(e) => r.violation("workspace_symlinked_buildpack_dir", "a buildpack directory that is a symbolic link is found like any other", "buildpacks/bp0 -> libcnb:demo/bp1, buildpacks/bp1 -> symlink to ../../elsewhere/bp1".into(), "2 nodes, 1 edge".into(), e.to_string()),
+        }
     }
     r.samples.push("bp0 -> [docker://.., libcnb:demo/bp1], bp1 -> [../vendor/.., libcnb:demo/bp2]; roots [bp0] -> [bp2, bp1, bp0]".into());
     r
